@@ -299,6 +299,7 @@ func runC12(c *mon.Ctx) {
 		rounds = []int{8, 32, 64}
 	}
 	recorded := make([][]c12event, len(rounds))
+	var confC *ipa.IPAConfig // a further configuration, alive and in use together with the shared one from the last round on
 	for round, G := range rounds {
 		id := fmt.Sprintf("concurrent/G=%d", G)
 		round, G := round, G
@@ -310,7 +311,8 @@ func runC12(c *mon.Ctx) {
 			// at the same time (two configurations must not share anything mutable)
 			var oC *opCtx
 			if round == len(rounds)-1 && haveNewSettings {
-				if confC, err := ipa.NewIPASettings(); err == nil {
+				if cc, err := ipa.NewIPASettings(); err == nil {
+					confC = cc
 					oC = newOpCtx(&Env{Conf: confC, Ref: env.Ref}, c.Seed*1000+int64(c.Shard), c.Rand(fmt.Sprintf("c12/%d", c.Shard)))
 					c.Count("rounds_with_two_configurations_in_use", 1)
 				}
@@ -497,9 +499,26 @@ func runC12(c *mon.Ctx) {
 				polls++
 			}
 		}()
-		light := func() string {
+		light := func(conf *ipa.IPAConfig) string {
 			// cheap read-only calls on the shared objects (transcript absorption, encoders, comparisons, map to field)
 			var d digester
+			// the cheap methods of the configuration's own objects, in a tight loop: two configurations used side by side
+			// must not share anything mutable (the field arithmetic underneath is assembly, invisible to the race detector)
+			for _, zv := range []uint64{256, 1 << 40} {
+				var z fr.Element
+				z.SetUint64(zv)
+				for _, b := range conf.PrecomputedWeights.ComputeBarycentricCoefficients(z)[:6] {
+					bb := b.Bytes()
+					d.add(bb[:])
+				}
+			}
+			q := conf.PrecomputedWeights.DivideOnDomain(7, o.sharedPoly)
+			qb := q[100].Bytes()
+			d.add(qb[:])
+			sparse := make([]fr.Element, 256)
+			sparse[3], sparse[250] = o.sharedScalars[0], o.sharedScalars[1]
+			cm := conf.Commit(sparse)
+			d.elem(&cm)
 			tr := common.NewTranscript("w")
 			for i := range o.sharedScalars {
 				tr.AppendScalar(&o.sharedScalars[i], []byte("s"))
@@ -536,13 +555,17 @@ func runC12(c *mon.Ctx) {
 			o.decodeShared(&d)
 			return d.sum()
 		}
-		want := light()
+		want := light(env.Conf)
 		for g := 0; g < 4; g++ {
+			conf := env.Conf
+			if confC != nil && g%2 == 1 {
+				conf = confC
+			}
 			wg.Add(1)
 			go func() {
 				defer wg.Done()
 				for it := 0; it < c.Pick(300, 3000); it++ {
-					if d := light(); d != want {
+					if d := light(conf); d != want {
 						c.Fail("output-differs-from-sequential/shared-read-only-inputs", "a read-only operation on inputs shared by several goroutines returned a different result than when executed alone", nil)
 						return
 					}
